@@ -200,7 +200,7 @@ struct Interp : World<Spline, TM, SM>
         ctx.count(want ? "probe.verdict_valid" : "probe.verdict_invalid");
     }
 
-    void do_set_init(int k, int N, uint64_t seed, bool by_points, int bad, int64_t pos, int64_t pos2, int domain, bool only_start_time = false)
+    void do_set_init(int k, int N, uint64_t seed, bool by_points, int bad, int64_t pos, int64_t pos2, int domain, bool only_start_time = false, bool only_boundary = false)
     {
         Handle &H = h[k];
         Problem<DIM> p = prob::gen_problem<DIM>(seed, N, ORDER, domain, by_points);
@@ -215,6 +215,17 @@ struct Interp : World<Spline, TM, SM>
             for (int i = 0; i < p.N(); ++i) p.tp[i + 1] = p.tp[i] + p.T[i];
             bad = BAD_NONE;
             ctx.count("probe.reinit_only_start_time");
+        }
+        else if (only_boundary && H.m.configured && H.m.valid && !H.m.rejected_early)
+        {
+            // the same durations, waypoints and start time again; only the fixed boundary derivatives differ
+            auto nbc = p.bc;
+            if (p.default_bc) nbc.start_velocity(0) = 0.75, nbc.end_acceleration(DIM - 1) = -0.5;
+            p = H.m.prob;
+            p.bc = nbc;
+            p.default_bc = false;
+            bad = BAD_NONE;
+            ctx.count("probe.reinit_only_boundary_state");
         }
         // waypoints that the active spatial map can represent (sub-manifold maps)
         {
@@ -852,7 +863,7 @@ struct Interp : World<Spline, TM, SM>
                 if (k < 0) break;
                 int N = 1 + (int)(((o.I(1) - 1) % 12 + 12) % 12);
                 if (o.I(7) & 2) N = 65 + (int)(((o.I(1) % 26) + 26) % 26); // long trajectories (more than 64 segments)
-                do_set_init(k, N, (uint64_t)o.I(2), (o.I(3) & 1) != 0, (int)o.I(4), o.I(5), o.I(6), domain, (o.I(7) & 1) != 0);
+                do_set_init(k, N, (uint64_t)o.I(2), (o.I(3) & 1) != 0, (int)o.I(4), o.I(5), o.I(6), domain, (o.I(7) & 1) != 0, (o.I(7) & 4) != 0);
                 ctx.count("fault.reconfig");
                 break;
             }
